@@ -142,7 +142,7 @@ def gen_expr(rng, sp, env, shapes=None):
 # ----------------------------------------------------------------------------- programs
 
 _ADDR = ["a", "b", "c", "d", "e", "f", "g", "h"]
-_TADDR = [("p", "x"), ("p", "y"), ("q", "x"), ("q", "r", "z"), ("r", "w")]
+_TADDR = [("p", "x"), ("p", "y"), ("q", "x"), ("q", "r", "z"), ("r", "w"), ("s", "t", "u"), ("s", "t", "v", "k"), ("q", "r", "y")]
 
 
 class Gen:
